@@ -116,6 +116,21 @@ func goEnv() []string {
 	return env
 }
 
+// l2Props: properties that also have L2 (production wiring) scenarios.  Their worker is the L2
+// binary: /repo's package main with /verif/l2/l2_test.go overlaid; it contains every L1 scenario too.
+var l2Props = map[string]bool{"C09": true, "C15": true, "C16": true, "C20": true}
+
+func buildL2(out string) {
+	cmd := exec.Command(filepath.Join(verifDir, "tools", "build_l2.sh"), out)
+	cmd.Env = goEnv()
+	var buf bytes.Buffer
+	cmd.Stdout, cmd.Stderr = &buf, &buf
+	if err := cmd.Run(); err != nil {
+		fmt.Fprintf(os.Stderr, "%s\n", buf.String())
+		fatal2("building the L2 worker (package main of /repo + overlay) failed: %v", err)
+	}
+}
+
 func build(out string, race bool) {
 	args := []string{"test", "-c", "-tags", "verif", "-o", out}
 	if race {
@@ -312,7 +327,11 @@ func main() {
 	}
 	start := time.Now()
 	bin := filepath.Join(binDir, fmt.Sprintf("worker-%s-%d.test", prop, os.Getpid()))
-	build(bin, false)
+	if l2Props[prop] {
+		buildL2(bin)
+	} else {
+		build(bin, false)
+	}
 	defer os.Remove(bin)
 
 	// scenario list from the binary itself
@@ -785,7 +804,11 @@ func doReplay(prop, path, binDir string) {
 		fatal2("replay file: %v", err)
 	}
 	bin := filepath.Join(binDir, fmt.Sprintf("worker-replay-%d.test", os.Getpid()))
-	build(bin, rf.Race)
+	if strings.Contains(rf.Scenario, "_l2_") {
+		buildL2(bin)
+	} else {
+		build(bin, rf.Race)
+	}
 	defer os.Remove(bin)
 	cmd := exec.Command(bin, "-test.run", "^TestWorker$", "-test.timeout", "0", "-mode", "replay", "-scenario", rf.Scenario, "-trace", path)
 	cmd.Env = goEnv()
